@@ -31,3 +31,37 @@ func VerifNewWithBuffer(filename string, src io.Reader, n int) (*Lexer, error) {
 	}
 	return &Lexer{in: in}, nil
 }
+
+// verifRecInput decorates the lexer's input buffer and reports every operation with its result.
+type verifRecInput struct {
+	in  inputBuffer
+	rec func(op string, r rune, s string, p lexer.Position, err error)
+}
+
+func (v *verifRecInput) Next() (rune, error) {
+	r, err := v.in.Next()
+	v.rec("Next", r, "", lexer.Position{}, err)
+	return r, err
+}
+
+func (v *verifRecInput) Retract() {
+	v.in.Retract()
+	v.rec("Retract", 0, "", lexer.Position{}, nil)
+}
+
+func (v *verifRecInput) Lexeme() (string, lexer.Position) {
+	s, p := v.in.Lexeme()
+	v.rec("Lexeme", 0, s, p, nil)
+	return s, p
+}
+
+func (v *verifRecInput) Skip() lexer.Position {
+	p := v.in.Skip()
+	v.rec("Skip", 0, "", p, nil)
+	return p
+}
+
+// VerifRecord makes the lexer report every operation it performs on its input buffer.
+func VerifRecord(l *Lexer, rec func(op string, r rune, s string, p lexer.Position, err error)) {
+	l.in = &verifRecInput{in: l.in, rec: rec}
+}
